@@ -107,8 +107,8 @@ func monitorC13(col *stats.Collector, anchors map[anchorKey]uint32, seenWrites m
 func TestC13AnchorBeforePubkey(t *testing.T) {
 	col := stats.Get("C13.hist")
 	rapid.Check(t, func(t *rapid.T) {
-		h := newHist(t, HistCfg{MaxSteps: 26, Chains: []string{"lbtc"}, Restarts: true, Crashes: true, Faults: true, PayOutcomes: true, Timeouts: true, Drops: true,
-			Weights: map[string]int{"start": 1, "progress": 12, "deliver": 3, "settle": 1, "restart": 2, "mine": 2, "watcher": 1, "paid": 1, "timeout": 1, "payplan": 1, "resolve": 1, "fault": 3, "armcrash": 3}})
+		h := newHist(t, HistCfg{MaxSteps: 26, Chains: []string{"lbtc"}, Restarts: true, Crashes: true, Faults: true, PayOutcomes: true, Timeouts: true, Drops: true, HeightLags: true, RecoverFaults: true,
+			Weights: map[string]int{"start": 1, "progress": 12, "deliver": 3, "settle": 1, "restart": 2, "mine": 2, "watcher": 1, "paid": 1, "timeout": 1, "payplan": 1, "resolve": 1, "fault": 3, "armcrash": 3, "heightlag": 2}})
 		defer h.Close()
 		h.monitors = []func(*Hist){monitorC13(col, map[anchorKey]uint32{}, map[string]int{}, map[string]int{})}
 		acts := h.stdActions()
